@@ -104,7 +104,12 @@ pub enum End {
     FinalizeReplace(Vec<(String, String)>),
     /// finalize, then calls a finished writer must refuse: finalize again, these operations, finalize once more.
     /// Whatever they return is ignored here; the checks look at what is on the device.
-    FinalizeThenMore { more: Vec<Op> },
+    FinalizeThenMore {
+        more: Vec<Op>,
+        /// the finalize call is finalize_customized_xml with a transformer that changes nothing
+        #[serde(default)]
+        customized: bool,
+    },
 }
 
 /// Remove the line breaks outside CDATA sections.
@@ -239,6 +244,12 @@ pub fn valid_program(s: &mut Src, o: &GenOpts) -> Program {
             _ => ops.push(Op::Image(gen::image_spec(s, o.density))),
         }
     }
+    // a source that breaks down in the very last call before the end (the writer then stands wherever the copy stopped)
+    if s.chance(o.failing_blob_chance.0, o.failing_blob_chance.1) {
+        let spec = gen::blob_spec(s);
+        let after = if spec.len == 0 { 0 } else { s.below(spec.len as u64) as u32 };
+        ops.push(Op::BlobFailing { spec, after });
+    }
     let end = match s.weighted(&[12, 3, 1, 1]) {
         0 => End::Finalize,
         1 => End::FinalizeXml(format!("<!-- {} -->", s.below(1000))),
@@ -280,6 +291,13 @@ pub struct Trace {
     pub late_image_calls: bool,
     /// input flag: a second visual reference for an image that has one (must be refused: an image lists one)
     pub repeat_visual: bool,
+    /// input flag: a caller who answers a failed top-level finalize by adding one more small point cloud and
+    /// finalizing again
+    pub add_after_failed_finalize: bool,
+    /// that second finalize reported success
+    pub finalized_after_adding_more: bool,
+    /// the top-level finalize failed and the caller went on (see `add_after_failed_finalize`)
+    pub added_after_failed_finalize: bool,
 }
 impl Trace {
     fn after_ok(&mut self, name: &str) {
@@ -521,6 +539,19 @@ pub fn exec_cloud<T: std::io::Read + std::io::Write + std::io::Seek>(w: &mut E57
         return;
     }
     if c.finalize {
+        if tr.finalize_after_error {
+            // the stubborn caller also tries a failing finalize of the point cloud a second time before giving up
+            tr.current = "pointcloud.finalize".to_string();
+            tr.calls += 1;
+            if let Err(e) = pw.finalize() {
+                tr.error = Some(("pointcloud.finalize".to_string(), e.to_string()));
+                tr.current = "pointcloud.finalize (second call)".to_string();
+                let _ = pw.finalize();
+                return;
+            }
+            tr.after_ok("pointcloud.finalize");
+            return;
+        }
         call!(tr, "pointcloud.finalize", pw.finalize());
     }
 }
@@ -596,6 +627,22 @@ fn exec_end(w: &mut E57Writer<MemDev>, p: &Program, tr: &mut Trace, marker: &Mem
                     tr.finalized = true;
                 }
                 Err(e) => {
+                    if tr.add_after_failed_finalize {
+                        let proto = vec![Record::CARTESIAN_X_F64, Record::CARTESIAN_Y_F64, Record::CARTESIAN_Z_F64];
+                        let added = (|| -> e57::Result<()> {
+                            let mut pw = w.add_pointcloud("{added-after-failed-finalize}", proto)?;
+                            for i in 0..5 {
+                                pw.add_point(vec![RecordValue::Double(i as f64), RecordValue::Double(-1.0), RecordValue::Double(0.5)])?;
+                            }
+                            pw.finalize()
+                        })();
+                        tr.added_after_failed_finalize = true;
+                        if added.is_ok() && w.finalize().is_ok() {
+                            tr.finalized = true;
+                            tr.finalized_after_adding_more = true;
+                            return;
+                        }
+                    }
                     tr.error = Some(("finalize".to_string(), e.to_string()));
                     if tr.retry_finalize {
                         // a caller may try again after a transient device error
@@ -658,12 +705,12 @@ fn exec_end(w: &mut E57Writer<MemDev>, p: &Program, tr: &mut Trace, marker: &Mem
                 }
             }
         }
-        End::FinalizeThenMore { more } => {
+        End::FinalizeThenMore { more, customized } => {
             marker.mark("finalize");
             tr.finalize_entered = true;
             tr.current = "finalize".into();
             tr.calls += 1;
-            if let Err(e) = w.finalize() {
+            if let Err(e) = if *customized { w.finalize_customized_xml(Ok) } else { w.finalize() } {
                 tr.error = Some(("finalize".to_string(), e.to_string()));
                 return;
             }
